@@ -27,6 +27,8 @@ func Main(args []string) int {
 		return cmdCheck(args[1:])
 	case "expect":
 		return cmdExpect(args[1:])
+	case "replay":
+		return cmdReplay(args[1:])
 	case "selftest":
 		return cmdSelftest(args[1:])
 	}
